@@ -29,7 +29,7 @@ fn outcome_text(o: AroundOutcome<Mk>) -> String {
 }
 
 fn main() {
-    let names: [&'static str; 3] = ["alpha", "b_2", "zz"];
+    let names: [&'static str; 5] = ["alpha", "b_2", "zz", "r_rate", "R2r"];
     for g in names {
         for e in names {
             let ge = GuardError::new(g, e);
@@ -60,9 +60,13 @@ fn main() {
             }
         }
     }
-    // the identifier arm of abort_guard! stringifies the identifier
-    let ctx = TransitionContext::new(Mk, Mk, "alpha");
-    println!("abort_guard_ident alpha zz -> {}", outcome_text(abort_guard!(ctx, zz)));
-    let ctx = TransitionContext::new(Mk, Mk, "b_2");
-    println!("abort_guard_ident b_2 alpha -> {}", outcome_text(abort_guard!(ctx, alpha)));
+    // the identifier arm of abort_guard! stringifies the identifier (every leading character class once)
+    macro_rules! ident_rows {
+        ($ev:expr; $($g:ident),*) => { $(
+            { let ctx = TransitionContext::new(Mk, Mk, $ev);
+              println!("abort_guard_ident {} {} -> {}", $ev, stringify!($g), outcome_text(abort_guard!(ctx, $g))); }
+        )* };
+    }
+    ident_rows!("alpha"; zz, alpha, r, rr, ready, r_2, x_r, R, Rr, _r, a9);
+    ident_rows!("r_rate"; zz, rate_limit, require_badge);
 }
